@@ -524,6 +524,10 @@ SPECS['C05'] = {
             ['EFLRItem.set_attributes', 'Attribute.value', 'Attribute.units'])
     + _pair('c05', 'defaults', (120, 300), 'channel / origin / parameter / computation from symbolic assigned-or-not state, dimension and limit 1..2**20',
             ['ChannelItem._run_checks_and_set_defaults', 'OriginItem._run_checks_and_set_defaults', 'ParameterItem._run_checks_and_set_defaults'])
+    + _pair('c05', 'api_wiring', (400, 900), 'every keyword parameter of every LogicalFile.add_* method (150 sites, found by introspection), one at a time: the value lands in the attribute of that name (3 documented renames) and nowhere else',
+            ['LogicalFile.add_axis', 'LogicalFile.add_calibration', 'LogicalFile.add_calibration_coefficient', 'LogicalFile.add_calibration_measurement', 'LogicalFile.add_channel', 'LogicalFile.add_comment',
+             'LogicalFile.add_computation', 'LogicalFile.add_equipment', 'LogicalFile.add_frame', 'LogicalFile.add_group', 'LogicalFile.add_long_name', 'LogicalFile.add_message', 'LogicalFile.add_no_format',
+             'LogicalFile.add_parameter', 'LogicalFile.add_path', 'LogicalFile.add_process', 'LogicalFile.add_splice', 'LogicalFile.add_tool', 'LogicalFile.add_well_reference_point', 'LogicalFile.add_zone'], shards=(16, 16))
     + _find('C06', 'ob_dtime') + _find('C06', 'reach_dtime') + _find('C06', 'k3_dtime_ms') + _find('C04', 'k4_int_is_integer')
     + _find('C06', 'ob_text_content') + _find('C06', 'ob_ascii_len') + _find('C07', 'ob_identity'),
 }
